@@ -43,6 +43,31 @@ def header_rules(ctx):
         else:
             ctx.bad('C14.1-header-layout', inst, 'a path of the header encoder does not start with 131, 68, count (it writes %s): an independent implementation of the header layout cannot read it' % head,
                     ctx.where(WB), key='WIRE:%s:no-header:%s' % (W, '-'.join(str(h[1]) for h in head[:2])))
+    # ... and the flags section exists only when there is at least one reference (the reader goes straight to the terms when n = 0)
+    from ..ranges import Ranges as _R14, canon as _canon14
+    RW = _R14(WB)
+    n_fl = 0
+    for bb in sorted(WB.live_blocks()):
+        cands = []
+        for st in WB.blocks[bb]['s']:
+            if st['k'] == '=' and st['rv']['k'] == 'agg' and str(st['rv'].get('adt', '')).endswith('ops::range::Range') and len(st['rv']['ops']) == 2:
+                cands.append(st['rv']['ops'][1])
+        t_ = WB.blocks[bb]['t']
+        if t_['k'] == 'call' and (callee_of(t_)[0] or '').endswith('::put_bytes') and len(t_['args']) > 2:
+            cands.append(t_['args'][2])
+        for op_ in cands:
+            WB._cur_at = (bb, None)
+            c_ = _canon14(WB, op_)
+            WB._cur_at = None
+            if c_[0] == 'bin' and c_[1] == 'Add' and c_[3] == ('const', 1) and c_[2][0] == 'bin' and c_[2][1] == 'Div' and c_[2][3] == ('const', 2):
+                n_fl += 1
+                r_ = RW._range_canon(c_[2][2], bb, None, True, 0)
+                if r_[0] >= 1:
+                    ctx.ok('C14.1-header-layout', 'flags-only-with-references', 'the n/2 + 1 flag bytes are written with n known to be at least 1 (n in [%s, %s])' % (r_[0], r_[1]), ctx.where(WB, bb))
+                else:
+                    ctx.bad('C14.1-header-layout', 'flags-only-with-references', 'the n/2 + 1 flag bytes are written also when there is no atom cache reference (n may be 0): the format has no flags section then, '
+                            'and a reader takes the stray byte for the first term', ctx.where(WB, bb), key='WIRE:dist-header:flags-when-empty')
+    ctx.anchor(n_fl >= 1, W + ': the write of the n/2 + 1 flag bytes')
     # flags length n/2 + 1 on both sides
     wl = None
     for pth in paths:
